@@ -159,6 +159,10 @@ def spec_builtin(I, st, name, args, kwargs, node):
         return Val(kd.V, z3.Select(I.list_items(st, args[0]), args[1].term))
     if name == "select":
         return Val(args[0].ty[2] if isinstance(args[0].ty, tuple) else "Any", z3.Select(args[0].term, args[1].term))
+    if name == "clock":
+        from . import asyncio_model
+        which = node.args[0].value if node.args else "time"
+        return asyncio_model.clock_value(I, st, which, old=st.in_old and st.old_heap is None)
     if name == "INF":
         return mkreal(INF)
     if name == "null":
